@@ -16,10 +16,12 @@ def tasks(tier, seed):
         ts += [{"kind": "small", "part": i, "parts": 12, "stride": 40, "n": 3} for i in range(12)]
         ts += [{"kind": "rnd", "count": 40, "seed": seed * 10 + i, "n": 3} for i in range(4)]
         ts += [{"kind": "apos", "count": 20, "seed": seed * 10 + i, "n": 3} for i in range(2)]
+        ts += [{"kind": "markers", "count": 15, "seed": seed * 10 + i, "n": 2} for i in range(2)]
     else:
         ts += [{"kind": "small", "part": i, "parts": 32, "stride": 6, "n": 3} for i in range(32)]
         ts += [{"kind": "rnd", "count": 250, "seed": seed * 10 + i, "n": 3} for i in range(32)]
         ts += [{"kind": "apos", "count": 40, "seed": seed * 10 + i, "n": 3} for i in range(8)]
+        ts += [{"kind": "markers", "count": 40, "seed": seed * 10 + i, "n": 2} for i in range(8)]
     return gen.spread(ts, hs)
 
 
@@ -60,6 +62,9 @@ def drive(task):
         if task["part"] == 0:
             for src in pdasrc.SPECIAL:
                 yield from events(src, task["n"])
+    elif task["kind"] == "markers":
+        for i in range(task["count"]):
+            yield from events({"kind": "pda_markers", "seed": task["seed"] * 100000 + i}, task["n"])
     elif task["kind"] == "apos":
         for i in range(task["count"]):
             yield from events({"kind": "pda_apos", "seed": task["seed"] * 100000 + i}, task["n"])
